@@ -1,6 +1,9 @@
 package gojq
 
-import "fmt"
+import (
+	"fmt"
+	"slices"
+)
 
 // CompilerOption is a compiler option.
 type CompilerOption func(*compiler)
@@ -61,6 +64,10 @@ func withFunction(name string, minarity, maxarity int, iter bool, f func(any, []
 		panic(fmt.Sprintf("invalid arity for %q: %d, %d", name, minarity, maxarity))
 	}
 	argcount := 1<<(maxarity+1) - 1<<minarity
+	// the interpreter reuses the arguments slice, so give a copy to the
+	// function in case it returns or retains the arguments
+	g := f
+	f = func(x any, xs []any) any { return g(x, slices.Clone(xs)) }
 	return func(c *compiler) {
 		if c.customFuncs == nil {
 			c.customFuncs = make(map[string]function)
